@@ -744,3 +744,70 @@ func (r *Report) callersWithin(rule string, fn *ssa.Function, allowed map[string
 		r.add(Ob{Rule: rule, Construct: fname(fn) + " has no caller", Pos: r.e.pos(fn.Pos()), OK: true, Detail: "no non-test caller", Trivial: true})
 	}
 }
+
+// ---------------------------------------------------------------------------
+// predicates: "fn returns pol only under the required facts"
+
+// returnsOnlyUnder: for every return of fn whose result #idx may have
+// polarity pol, the required facts hold on the way there (branch facts on
+// every path to the return, or facts implied by the returned value itself
+// having that polarity). exempt (may be nil) skips returns by their value.
+// One obligation per requirement.
+func (r *Report) returnsOnlyUnder(rule, construct string, fn *ssa.Function, idx int, pol bool, exempt func(ssa.Value) bool, reqs ...Req) {
+	e := r.e
+	for _, q := range reqs {
+		ok := true
+		var bad ssa.Instruction
+		nret := 0
+		forEachInstr(fn, func(in ssa.Instruction) {
+			ret, isR := in.(*ssa.Return)
+			if !isR || idx >= len(ret.Results) {
+				return
+			}
+			nret++
+			v := retOperand(ret, idx)
+			if cb, isC := isConstBool(v); isC && cb != pol {
+				return
+			}
+			if exempt != nil && exempt(v) {
+				return
+			}
+			if q.Has(ValueFacts(v, pol)) {
+				return
+			}
+			if g, _ := e.guardedOnAllPaths(ret, q); g {
+				return
+			}
+			ok = false
+			bad = in
+		})
+		pos := e.pos(fn.Pos())
+		if bad != nil {
+			pos = e.ipos(bad)
+		}
+		r.check(ok && nret > 0, rule, construct+": returns "+boolStr(pol)+" only when "+q.Name, pos,
+			"every return of "+boolStr(pol)+" is under the condition",
+			fname(fn)+" can return "+boolStr(pol)+" without ["+q.Name+"]")
+	}
+}
+
+// pathUnless: is there a path in fn from `from` (nil = entry) to an
+// instruction satisfying target that passes no barrier instruction and
+// crosses no edge establishing the exempting fact?
+func (e *Engine) pathUnless(fn *ssa.Function, from ssa.Instruction, target, barrier func(ssa.Instruction) bool, exempt Req) PathResult {
+	return e.findPath(fn, from, target, barrier, func(p, s *ssa.BasicBlock) bool {
+		return !exempt.Has(expandFacts(edgeOnly(p, s)))
+	})
+}
+
+// isStoreToField: a store through a FieldAddr of fld.
+func isStoreToField(fld *types.Var) func(ssa.Instruction) bool {
+	return func(in ssa.Instruction) bool {
+		s, ok := in.(*ssa.Store)
+		if !ok {
+			return false
+		}
+		f, _, ok := fieldOfAddr(s.Addr)
+		return ok && f == fld
+	}
+}
